@@ -30,6 +30,7 @@
 #include <etl/_type_traits/remove_const.hpp>
 #include <etl/_type_traits/remove_cv.hpp>
 #include <etl/_type_traits/remove_cvref.hpp>
+#include <etl/_type_traits/remove_reference.hpp>
 #include <etl/_utility/forward.hpp>
 #include <etl/_utility/in_place.hpp>
 #include <etl/_utility/in_place_index.hpp>
@@ -470,12 +471,13 @@ struct optional<T&> {
     }
 
     template <typename U = T>
-        requires(not is_same_v<remove_cvref_t<U>, optional>)
+        requires(
+            not is_same_v<remove_cvref_t<U>, optional> and is_lvalue_reference_v<U>
+            and is_convertible_v<remove_reference_t<U>*, T*>
+        )
     constexpr explicit(not is_convertible_v<U, T>) optional(U&& v)
         : _ptr(etl::addressof(v))
     {
-        static_assert(is_constructible_v<add_lvalue_reference_t<T>, U>, "Must be able to bind U to T&");
-        static_assert(is_lvalue_reference_v<U>, "U must be an lvalue");
     }
 
     template <typename U>
@@ -499,11 +501,12 @@ struct optional<T&> {
     }
 
     template <typename U = T>
-        requires(not is_same_v<remove_cvref_t<U>, optional> and not conjunction_v<is_scalar<T>, is_same<T, decay_t<U>>>)
+        requires(
+            not is_same_v<remove_cvref_t<U>, optional> and not conjunction_v<is_scalar<T>, is_same<T, decay_t<U>>>
+            and is_lvalue_reference_v<U> and is_convertible_v<remove_reference_t<U>*, T*>
+        )
     constexpr auto operator=(U&& v) -> optional&
     {
-        static_assert(is_constructible_v<add_lvalue_reference_t<T>, U>, "Must be able to bind U to T&");
-        static_assert(is_lvalue_reference_v<U>, "U must be an lvalue");
         _ptr = etl::addressof(v);
         return *this;
     }
@@ -511,8 +514,7 @@ struct optional<T&> {
     template <typename U>
     constexpr auto operator=(optional<U> const& rhs) -> optional&
     {
-        static_assert(is_constructible_v<add_lvalue_reference_t<T>, U>, "Must be able to bind U to T&");
-        _ptr = rhs._ptr;
+        _ptr = rhs.has_value() ? etl::addressof(*rhs) : nullptr;
         return *this;
     }
 
